@@ -113,6 +113,7 @@ func c02Run(w *W, idx int) {
 		names := []string{"skeleton", "two-leaf", "skeleton", "mixed", "two-leaf", "failing", "wide-deep", "mixed", "skeleton"}
 		s := stratumByName(names[k%len(names)])
 		g := s.Make(r)
+		g.Foreign = true
 		if s.Name == "wide-deep" {
 			g.Budget = 400
 		}
